@@ -28,7 +28,7 @@ func newBrokerPublishQOS2Transaction(client *Client, msgID uint16) *brokerPublis
 	return &brokerPublishQOS2Transaction{
 		TransactionBase: transactions.NewTransactionBase(
 			func() {
-				client.transactions.Delete(msgID)
+				client.brokerTransactions.Delete(msgID)
 				tLog.Debug("Deleted.")
 			},
 		),
